@@ -203,7 +203,8 @@ class Render:
         elif sp == 'n1':
             s = name + '1'
         elif sp == 'kw':
-            kname = t.setdefault('_kw', f'k{len(self.kw)}_{self.count}')
+            # keyword names whose order of appearance is not their alphabetical order
+            kname = t.setdefault('_kw', f'{"zkqgm"[len(self.kw) % 5]}{len(self.kw)}_{self.count}')
             self.count += 1
             self.kw[kname] = n
             s = f'{name}:{kname}'
